@@ -163,6 +163,7 @@ type Path struct {
 	extra      map[string]interface{}
 	panicTrace string
 	solverHint string
+	tokCache   map[string][]value
 	ranges     map[int32]*rng
 	rangeHits  int64
 }
